@@ -799,6 +799,21 @@ func (ex *Exec) scanValue(fr *frame, v ssa.Value) Value {
 					return &FuncVal{fn: f}
 				}
 			}
+			if fa, isFA := x.X.(*ssa.FieldAddr); isFA && ex.scanState != nil {
+				// a func-valued struct field read through a known reference (s.pick, s.sortPrefer …)
+				if _, isFn := types.Unalias(x.Type()).Underlying().(*types.Signature); isFn {
+					if base, ok := ex.scanValue(fr, fa.X).(*Term); ok {
+						c, cs, ft := ex.fieldComp(derefType(fa.X.Type()), fa.Field)
+						v := ex.loadAddr(ex.scanState, &Addr{comp: c, compSort: cs, idx: []*Term{base}, typ: ft})
+						if v.IsLeaf() {
+							if fv, ok := ex.funcVals[v.Op]; ok {
+								return fv
+							}
+						}
+					}
+				}
+				return nil
+			}
 			switch c := ex.scanValue(fr, x.X).(type) {
 			case *scanCell:
 				return c.content
